@@ -51,6 +51,11 @@ def gen(rng, scenario, tier):
     n = rng.randint(5, 160)
     cfg = {"count_ubound": rng.randint(1, 12), "cutpoint_proportion_lbound": rng.choice([2e-10, 2e-10, 0.05, 0.25])}
     build = _points(rng, n, d, mode, scale=rng.choice([1.0, 3.0]))
+    if rng.random() < 0.03:
+        # a sorted, geometrically decaying series: every split peels off one point, the tree is as deep as the data is long
+        d, m = 1, rng.randint(56, 64)
+        build = [[-(2.0 ** -j)] for j in range(m)]
+        cfg = {"count_ubound": 1, "cutpoint_proportion_lbound": 2e-10}
     ops = []
     ids = ["test", "t2", "t3"]
     for _ in range(rng.randint(4, 14)):
@@ -60,6 +65,9 @@ def gen(rng, scenario, tier):
             pts = _points(rng, m, d, mode, center=rng.choice([0.0, 0.0, 1.5]), scale=rng.choice([1.0, 3.0]))
             if pts and rng.random() < 0.3:
                 pts[0] = list(rng.choice(build))  # a point exactly equal to a build point (possibly on a split value)
+            if pts and rng.random() < 0.06:
+                pts[-1] = list(pts[-1])
+                pts[-1][rng.randrange(d)] = rng.choice(["inf", "-inf"])   # an unbounded reading: it belongs to an outermost cell
             # (also under the id "build": a reference that is grown or replaced incrementally)
             ops.append(["fill", pts, rng.choice(ids + ["build"]) if rng.random() < 0.25 else rng.choice(ids), rng.random() < 0.5])
         elif c < 0.6:
@@ -142,7 +150,7 @@ def run(case, ctx):
         ctx.sim_time += 1
         if op[0] in ("fill", "refill_build"):
             if op[0] == "fill":
-                pts = np.array(op[1], dtype=float).reshape(-1, d)
+                pts = np.array([[float(v) for v in r] for r in op[1]], dtype=float).reshape(-1, d)
                 tid, reset = op[2], op[3]
             else:
                 pts, tid, reset = data, op[1], True
@@ -210,7 +218,28 @@ def run(case, ctx):
                 ctx.violation("plotly", "C08:plotly_rows",
                               f"op {t}: to_plotly_dataframe({a!r},{b!r},max_depth={md}) has {len(df)} rows ({len(set(df['idx']))} distinct), the tree has {len(exp_nodes)} nodes in range")
                 raise EndRun()
-            by_idx = {r["idx"]: r for r in df.to_dict("records")}
+            # rows are matched to nodes through the parent links (whatever the library uses as node ids): root = the row without a
+            # parent; the children of a matched row are the rows naming it as parent, told apart by the "<=" / ">" of their labels
+            recs_ = df.to_dict("records")
+            null = lambda v: v is None or (isinstance(v, float) and np.isnan(v))  # noqa: E731
+            kids_of = {}
+            for r_ in recs_:
+                if not null(r_["parent_idx"]):
+                    kids_of.setdefault(r_["parent_idx"], []).append(r_)
+            roots_ = [r_ for r_ in recs_ if null(r_["parent_idx"])]
+            by_idx = {}
+            if len(roots_) == 1:
+                stack = [(root, roots_[0])]
+                while stack:
+                    nd_, row_ = stack.pop()
+                    by_idx[id(nd_)] = row_
+                    ks = kids_of.get(row_["idx"], [])
+                    for child, tok in ((nd_.left, " <= "), (nd_.right, " > ")):
+                        if child is None:
+                            continue
+                        cand = [k_ for k_ in ks if tok in str(k_["name"])]
+                        if len(cand) == 1:
+                            stack.append((child, cand[0]))
             ref_tot = model[a][id(root)]
             test_tot = (model[b][id(root)] if (b in model) else 0) if b is not None else None
             for n, dp, p in exp_nodes:
@@ -219,7 +248,8 @@ def run(case, ctx):
                     ctx.violation("plotly", "C08:plotly_missing_node", f"op {t}: a node at depth {dp} is not listed")
                     raise EndRun()
                 pi = r["parent_idx"]
-                pi = None if (pi is None or (isinstance(pi, float) and np.isnan(pi))) else int(pi)
+                pi = None if null(pi) else pi
+                pi = None if pi is None else (id(p) if (p is not None and by_idx.get(id(p)) is not None and by_idx[id(p)]["idx"] == pi) else -1)
                 if cols is not None and p is not None and not str(r["name"]).startswith(cols[p.axis] + " "):
                     ctx.violation("plotly", "C08:plotly_name",
                                   f"op {t}: node depth {dp} is named {r['name']!r}; its parent splits on axis {p.axis} ({cols[p.axis]!r})")
